@@ -1,5 +1,6 @@
 // C02 - factors reproduce the permuted matrix; pivoting bounds hold.
 #include "lucheck.hpp"
+#include <map>
 
 namespace vf {
 
@@ -69,6 +70,28 @@ template <class T> static void run_T(Choice &c, Ctx &cx)
     LUDecoded<T> dec;
     bool ok = check_lu<T>(cx, AA, perm_r.data(), perm_c.data(), &L, &U, o.u, true, false, dec);
     int expansions = stat.expansions;
+    // The same bounds hold when the factors are re-used for other values on the same pattern (Fact = SamePattern_SameRowPerm):
+    // a remembered pivot is kept only while it passes the threshold test, so every multiplier stays within 1/u and
+    // Pr*A*Pc = L*U still holds (the diagonal preference is not demanded then, as the property says).
+    if (ok && direct && !dec.degenerate && m == n && c.chance(96)) {
+        GMat G2 = G; ValGen g; g.kind = c.chance(128) ? 1 : 0; g.cmode = 0; g.expK = 0; g.explicit_zero = false;
+        for (auto &col : G2.col) for (auto &en : col) en.second = g.value(c, cplx);
+        if (!(cx.is_known("F-SS") && maybe_exactly_singular(G2))) {
+            Comp<T> fresh = to_comp<T>(G2, false, nullptr);
+            std::map<std::pair<int_t, int_t>, T> mv; for (int kk = 0; kk < n; ++kk) for (int_t p = fresh.ptr[kk]; p < fresh.ptr[kk + 1]; ++p) mv[{(int_t)kk, fresh.idx[p]}] = fresh.val[p];
+            for (int kk = 0; kk < n; ++kk) for (int_t p = S.ptr[kk]; p < S.ptr[kk + 1]; ++p) S.val[p] = mv[{(int_t)kk, S.idx[p]}];
+            so.Fact = SamePattern_SameRowPerm; info = -999;
+            bool ab = guarded([&] { Tr<T>::gstrf(&so, &AC, sp_ienv(2), sp_ienv(1), etree.data(), nullptr, 0, perm_c.data(), perm_r.data(), &L, &U, &Glu, &stat, &info); }) != 0;
+            if (ab) { cx.fail("abort", fmt("gstrf(SamePattern_SameRowPerm): library called ABORT: %s", vf_abort_msg())); factors_exist = false; cleanup(); vf_purge(); return; }
+            if (info < 0 || info > n) { factors_exist = false; cleanup(); vf_purge(); VF_FAIL(cx, "info", "re-use of the factors returned info=%lld", (long long)info); }
+            if (info == 0) {
+                Dense<W> AA2 = dense_of(S); LUDecoded<T> dec2;
+                ok = check_lu<T>(cx, AA2, perm_r.data(), perm_c.data(), &L, &U, o.u, false, false, dec2);
+                if (!ok) cx.msg = "after re-use with SamePattern_SameRowPerm: " + cx.msg;
+                else cx.label("refactored-same-row-perm");
+            } else cx.label("singular-return(re-use)");
+        }
+    }
     cleanup();
     if (!ok) { vf_purge(); return; }
     if (!ledger_clean(cx, "after destroying L, U, AC, A")) return;
